@@ -637,3 +637,6 @@ RULES = [
     ("C20.WEIGHTRANGE", 1, rule_weightrange),
     ("C20.EMPTYINDEX", 4, rule_emptyindex),
 ]
+
+from . import common as _common_purity
+RULES = RULES + _common_purity.purity_rules("C20")
